@@ -65,6 +65,7 @@ vj_t *vj_new(json_type t)
 	v->j.type = t;
 	v->j.refcount = 1;
 	v->ival = 0;
+	v->rval = 0.0;
 	v->n = 0;
 	v->nk = 0;
 	v->weight = 1;
@@ -443,6 +444,7 @@ static vj_t *vj_copy_node(const vj_t *s)
 	if (!d)
 		return NULL;
 	d->ival = s->ival;
+	d->rval = s->rval;
 	d->n = s->n;
 	d->nk = s->nk;
 	d->weight = s->weight;
@@ -511,6 +513,8 @@ static int vj_eq_node(const vj_t *a, const vj_t *b)
 		return 0;
 	if (a->j.type == JSON_INTEGER)
 		return a->ival == b->ival;
+	if (a->j.type == JSON_REAL)
+		return a->rval == b->rval;
 	if (a->j.type == JSON_STRING) {
 		if (a->nul_inside != b->nul_inside)
 			return 0;
@@ -667,6 +671,47 @@ int json_integer_set(json_t *integer, json_int_t value)
 		return -1;
 	VJ(integer)->ival = value;      /* in place: visible through every container sharing it */
 	return 0;
+}
+
+/* reals: a value, no arithmetic of its own (NaN and infinities are not JSON and are refused) */
+json_t *json_real(double value)
+{
+	vj_t *v;
+	if (__CPROVER_isnand(value) || __CPROVER_isinfd(value))
+		return NULL;
+	v = vj_new(JSON_REAL);
+	if (!v)
+		return NULL;
+	v->rval = value;
+	return &v->j;
+}
+
+double json_real_value(const json_t *real)
+{
+	VJ_ALIVE(real);
+	if (!real || real->type != JSON_REAL)
+		return 0.0;
+	return VJ(real)->rval;
+}
+
+int json_real_set(json_t *real, double value)
+{
+	VJ_ALIVE(real);
+	if (!real || real->type != JSON_REAL || __CPROVER_isnand(value) || __CPROVER_isinfd(value))
+		return -1;
+	VJ(real)->rval = value;
+	return 0;
+}
+
+/* integer -> double conversion rounds above 2^53, exactly as in C */
+double json_number_value(const json_t *json)
+{
+	VJ_ALIVE(json);
+	if (json && json->type == JSON_INTEGER)
+		return (double)VJ(json)->ival;
+	if (json && json->type == JSON_REAL)
+		return VJ(json)->rval;
+	return 0.0;
 }
 
 int json_string_set(json_t *string, const char *value)
@@ -889,6 +934,8 @@ static void vj_havoc_payload(vj_t *v)
 {
 	unsigned i;
 	v->ival = nondet_llong();
+	v->rval = nondet_double();
+	__CPROVER_assume(!__CPROVER_isnand(v->rval) && !__CPROVER_isinfd(v->rval));   /* JSON has neither */
 	for (i = 0; i < VJ_SLEN; i++)
 		v->s[i] = nondet_char();
 	v->s[VJ_SLEN] = '\0';
@@ -913,6 +960,7 @@ static vj_t *vj_raw(json_type t)
 	v->j.type = t;
 	v->j.refcount = 1;
 	v->ival = 0;
+	v->rval = 0.0;
 	v->n = 0;
 	v->nk = 0;
 	v->weight = 1;
